@@ -130,7 +130,7 @@ func (ex *Exec) submit(c *CoroObj, sub Value) (Value, Value) {
 		rec.envPre = w.snap(ex)
 		w.envStep(ex)
 		fault := 0
-		if w.subFaults > 0 {
+		if w.subFaults > 0 && !w.warm {
 			fault = ex.choose(3, nil, "store-fault")
 			if fault != 0 {
 				w.subFaults--
@@ -168,7 +168,11 @@ func (ex *Exec) submit(c *CoroObj, sub Value) (Value, Value) {
 			break
 		}
 		rcT := ex.T("internal/kernel/t_aio", "RouterCompletion")
-		switch ex.choose(3, nil, "router-outcome") {
+		rsel := 0
+		if !w.warm {
+			rsel = ex.choose(3, nil, "router-outcome")
+		}
+		switch rsel {
 		case 0:
 			rec.outcome = "nomatch"
 			rc := ex.newStruct(rcT)
@@ -189,7 +193,11 @@ func (ex *Exec) submit(c *CoroObj, sub Value) (Value, Value) {
 		rec.kind = "sender"
 		w.senderLog = append(w.senderLog, sub)
 		scT := ex.T("internal/kernel/t_aio", "SenderCompletion")
-		switch ex.choose(3, nil, "sender-outcome") {
+		ssel := 0
+		if !w.warm {
+			ssel = ex.choose(3, nil, "sender-outcome")
+		}
+		switch ssel {
 		case 0:
 			rec.outcome = "success"
 			sc := ex.newStruct(scT)
@@ -381,6 +389,46 @@ func init() {
 		}
 		return ex.coroValue(&CoroObj{id: w.ncoro})
 	})
+	// WarmBegin / WarmEnd: requests run between the two are an earlier part of the same server process's life:
+	// they execute sequentially on the current database (no environment steps, no faults, router: no match,
+	// sender: success), pose no invariant obligations and leave no trace - only what the process itself keeps
+	// (package-level variables, caches, objects reachable from the workers) survives into the checked request.
+	vx("WarmBegin", func(ex *Exec, fr *Frame, a []Value, s ssa.Instruction) Value {
+		w := ex.W
+		w.warmSave = [3]int{w.mode, w.subFaults, len(w.yields)}
+		w.warmO2 = w.autoO2
+		w.warm, w.mode, w.subFaults, w.autoO2 = true, 0, 0, ""
+		if len(w.times) == 0 {
+			w.advanceTime(ex)
+		}
+		ex.H.noteBound("warm-up: the checked request is preceded by one earlier request sequence of the same process (symbolic inputs, empty database)")
+		return nil
+	})
+	vx("WarmEnd", func(ex *Exec, fr *Frame, a []Value, s ssa.Instruction) Value {
+		w := ex.W
+		w.warm = false
+		w.mode, w.subFaults = w.warmSave[0], w.warmSave[1]
+		w.yields = w.yields[:w.warmSave[2]]
+		w.senderLog = nil
+		w.autoO2 = w.warmO2
+		return nil
+	})
+	// The background coroutines cmd/serve registers (calls to (*System).AddBackground in the real registration block).
+	vx("ServeRegistersBackground", func(ex *Exec, fr *Frame, a []Value, s ssa.Instruction) Value {
+		ex.P.serveRegistrations()
+		want := a[0].(*IfaceV).v.(*FuncV).fn
+		n := 0
+		for _, f := range ex.P.regBg {
+			if f == want {
+				n++
+			}
+		}
+		return ex.tt.BV(uint64(n), 64)
+	})
+	vx("ServeBackgroundCount", func(ex *Exec, fr *Frame, a []Value, s ssa.Instruction) Value {
+		ex.P.serveRegistrations()
+		return ex.tt.BV(uint64(len(ex.P.regBg)), 64)
+	})
 	vx("AutoO2", func(ex *Exec, fr *Frame, a []Value, s ssa.Instruction) Value {
 		ex.W.autoO2 = ex.str(a[0], "label")
 		return nil
@@ -507,6 +555,12 @@ func (p *Program) serveRegistrations() map[int64][]*ssa.Function {
 						continue
 					}
 					callee := c.Call.StaticCallee()
+					if callee != nil && callee.Name() == "AddBackground" && len(c.Call.Args) == 3 {
+						if f, ok := c.Call.Args[2].(*ssa.Function); ok {
+							p.regBg = append(p.regBg, f)
+						}
+						continue
+					}
 					if callee == nil || callee.Name() != "AddOnRequest" || len(c.Call.Args) != 3 {
 						continue
 					}
